@@ -735,3 +735,40 @@ Section CheckJagged.
     eapply cj_sound; exact E.
   Qed.
 End CheckJagged.
+
+(* ============================== the oracle contracts are satisfiable (non-vacuity) *)
+
+Section IsortOk.
+  Variable key : nat -> nat -> Z.      (* axis, element: any totally ordered key *)
+  Definition key_lt (a x y : nat) : bool := (key a x <? key a y)%Z.
+
+  Lemma ins_perm a x l : Permutation (ins (key_lt a) x l) (x :: l).
+  Proof.
+    induction l as [|y t IH]; cbn [ins]; [apply Permutation_refl|].
+    destruct (key_lt a y x); [|apply Permutation_refl].
+    rewrite IH. apply perm_swap.
+  Qed.
+
+  Lemma ins_sorted a x l : sorted_by key_lt a l -> sorted_by key_lt a (ins (key_lt a) x l).
+  Proof.
+    unfold sorted_by. induction l as [|y t IH]; cbn [ins]; intros H.
+    - constructor; constructor.
+    - inversion H as [|? ? Hy Ht]; subst. destruct (key_lt a y x) eqn:E.
+      + constructor; [|apply IH; exact Ht].
+        eapply Permutation_Forall; [apply Permutation_sym; apply ins_perm|].
+        constructor; [|exact Hy]. unfold key_lt in *. apply Z.ltb_lt in E. apply Z.ltb_ge. lia.
+      + constructor; [|exact H]. unfold key_lt in *. apply Z.ltb_ge in E.
+        constructor; [apply Z.ltb_ge; exact E|].
+        rewrite Forall_forall in *. intros z Hz. specialize (Hy z Hz). apply Z.ltb_ge in Hy. apply Z.ltb_ge. lia.
+  Qed.
+
+  Lemma isort_sorter_ok : sorter_ok (fun a => isort (key_lt a)) key_lt.
+  Proof.
+    intros a l. unfold isort. induction l as [|x t [IHp IHs]]; cbn [fold_right].
+    - split; [apply Permutation_refl|constructor].
+    - split; [rewrite ins_perm; apply perm_skip; exact IHp|apply ins_sorted; exact IHs].
+  Qed.
+End IsortOk.
+
+Lemma ord_ok_of_nat L : ord_ok N.of_nat L.
+Proof. split; intros; lia. Qed.
